@@ -41,7 +41,7 @@ template <class S> struct Residual {
     long double nr = 0, nf = 0;      // ||f - A x||_2, ||f||_2
     long double absAx = 0;           // || |A||x| ||_2  (forward error scale of a working-precision residual evaluation)
     long double nx = 0;
-    size_t maxrow = 0; bool finite = true;
+    size_t maxrow = 0; bool finite = true, overflow = false;
 };
 template <class S> Residual<S> residual_ld(const Csr<S> &A, const std::vector<S> &f, const std::vector<S> &x) {
     typedef typename ldtype<S>::type L; Residual<S> R; R.r.resize(A.n);
@@ -53,7 +53,12 @@ template <class S> Residual<S> residual_ld(const Csr<S> &A, const std::vector<S>
         R.r[i] = from_ld<S>(s);
     }
     R.nr = std::sqrt(R.nr); R.nf = std::sqrt(R.nf); R.absAx = std::sqrt(R.absAx); R.nx = std::sqrt(R.nx);
-    R.finite = std::isfinite((double)R.nr);
+    // "finite" means: representable by a working-precision evaluation.  A plain (unscaled) 2-norm squares the entries, so a residual whose squared
+    // norm overflows the working precision (|r| >~ 1e154 in double; seen with diverging Richardson iterations) is non-finite for the library
+    // although long double still holds it; reporting inf / NaN for it is overflow, not mis-reporting.
+    typedef typename ldtype<S>::real Rl; (void)sizeof(Rl);
+    long double lim = std::sqrt((long double)std::numeric_limits<typename std::conditional<std::is_same<S, float>::value || std::is_same<S, std::complex<float>>::value, float, double>::type>::max()) / 4;
+    R.finite = std::isfinite((double)R.nr); R.overflow = !(R.nr < lim && R.nx < lim);
     return R;
 }
 template <class S> long double norm2_ld(const std::vector<S> &v) { long double s = 0; for (auto &e : v) s += abs2_ld(to_ld(e)); return std::sqrt(s); }
@@ -101,11 +106,12 @@ bool check_truthful(Case &c, const CallSpec &cs, const Csr<S> &A, const std::vec
     if (out_true) *out_true = (double)tv;
     if (!std::isfinite(res)) {
         obs_sum("nonfinite_reports");
-        ok &= c.check(!tfinite, name + ":nonfinite-report-for-finite-residual", "solver reported a non-finite residual although the true residual of the returned x is finite",
+        ok &= c.check(!tfinite || R.overflow, name + ":nonfinite-report-for-finite-residual", "solver reported a non-finite residual although the true residual of the returned x is finite",
                       J().n("reported", res).n("true", (double)tv).n("iters", iters));
         return ok;
     }
     if (!tfinite) { c.check(false, name + ":finite-report-for-nonfinite-residual", "solver reported a finite residual but the returned x has a non-finite true residual", J().n("reported", res).n("iters", iters)); return false; }
+    if (!std::isfinite(K.kappa_call()) && (cs.cfg.left || !cs.cfg.explicit_res)) { obs_sum("checks_skipped_nonfinite_preconditioner_probe"); return ok; }   // P itself overflows / is NaN: no bound exists
     long double nx0 = norm2_ld(x0);
     long double dr = 8.0L * u * (R.maxrow + 3) * (R.absAx + R.nf);
     // left side: the compared values are P applied to residual vectors, hence scaled by ||P|| (>= the probe estimate; a useful P has ||P|| ~ ||A^-1||)
